@@ -153,6 +153,60 @@ def run_sequence(cls_index, ops, rng, max_len, unset=0.0, lazy=False):
     return tr, problems
 
 
+def resend_race(rng, n=400):
+    """ONE message object sent again and again by the application thread while the provider thread is still encoding
+    the previous transmission (send() only queues; encoding is lazy): every transmission must be well-formed."""
+    import sys as _sys
+    import threading
+    import collections
+    out, problems = [], []
+    for cls_index in (2, 6, 8):            # C-STORE-RSP, C-FIND-RSP, C-MOVE-RSP: what providers re-use
+        cls = D.dm.MESSAGE_TYPE[CODE[cls_index - 1]]
+        msg = D.fill(cls(), rng)
+        q = collections.deque()
+        done = threading.Event()
+
+        class Dul(object):
+            max_pdu_length = 1 << 20
+
+            def send(self, item):
+                q.append(item)
+        assoc = D.bare_association(16384)
+        assoc.dul = Dul()
+
+        def producer():
+            for k in range(n):
+                msg.status = 0xFF00 if k % 2 else 0x0000
+                assoc.send(msg, 1)
+            done.set()
+
+        def consumer():
+            while not (done.is_set() and not q):
+                try:
+                    item = q.popleft()
+                except IndexError:
+                    continue
+                try:
+                    e, pr = measure(list(item), None, None, ev='LSEND')
+                except Exception as exc:      # noqa
+                    e, pr = None, 'encoding a queued transmission raised %s: %s' % (type(exc).__name__, exc)
+                if pr:
+                    problems.append((cls_index, pr))
+                else:
+                    out.append([{'ev': 'New', 'cls': cls_index}, e])
+        old = _sys.getswitchinterval()
+        _sys.setswitchinterval(1e-6)
+        try:
+            tp, tc = threading.Thread(target=producer), threading.Thread(target=consumer)
+            tc.start()
+            tp.start()
+            tp.join()
+            tc.join(30)
+        finally:
+            _sys.setswitchinterval(old)
+    return out, problems
+
+
 def concurrent_sends(rng, nthreads=6, per_thread=120):
     """Several threads (as many associations) send at the same time; every transmission must still be one well-formed
     command group.  Returns (traces, problems)."""
@@ -224,6 +278,12 @@ def main(tier='quick'):
         traces.append(tr)
         for pr in problems:
             v.report({'site': 'dimsemessages', 'clause': 'send', 'cls': c}, '%s (class %d, ops %r)' % (pr, c, ops), replay=metas[-1])
+    rtr, rpr = resend_race(rng, 400 if tier == 'quick' else 4000)
+    for c, pr in rpr[:5]:
+        v.report({'site': 'dimsemessages', 'clause': 'send-while-encoding', 'cls': c}, '%s (class %d re-sent while its previous transmission was being encoded)' % (pr, c), replay={'cls': c, 'ops': [], 'src': 'concurrent'})
+    for tr in rtr:
+        traces.append(tr)
+        metas.append({'cls': tr[0]['cls'], 'ops': [], 'src': 'concurrent'})
     ctr, cpr = concurrent_sends(rng, 6, 120 if tier == 'quick' else 1500)
     for c, pr in cpr:
         v.report({'site': 'dimsemessages', 'clause': 'send-concurrent', 'cls': c}, '%s (class %d, %d threads sending at once)' % (pr, c, 6), replay={'cls': c, 'ops': [], 'src': 'concurrent'})
